@@ -91,6 +91,9 @@ type VerifAutoScaling struct {
 	attachCalls  int
 	// LaunchBase: launch time reported for instances (unix seconds)
 	LaunchBase int64
+	// DescribeDown: every DescribeAutoScalingGroups call fails (throttled control plane); the
+	// resize / attach / terminate calls keep working
+	DescribeDown bool
 	// termFailAt: 1-based index of the TerminateInstanceInAutoScalingGroup call that fails
 	termFailAt int
 	termCalls  int
@@ -106,7 +109,7 @@ func (s *VerifAutoScaling) Group(name string) *VerifASG {
 }
 
 func (s *VerifAutoScaling) DescribeAutoScalingGroups(in *autoscaling.DescribeAutoScalingGroupsInput) (*autoscaling.DescribeAutoScalingGroupsOutput, error) {
-	if s.J.Fail("DescribeAutoScalingGroups") {
+	if s.DescribeDown || s.J.Fail("DescribeAutoScalingGroups") {
 		return nil, errors.New("injected DescribeAutoScalingGroups failure")
 	}
 	out := &autoscaling.DescribeAutoScalingGroupsOutput{}
@@ -248,6 +251,9 @@ func (s *VerifAutoScaling) CreateOrUpdateTags(in *autoscaling.CreateOrUpdateTags
 	s.J.Calls = append(s.J.Calls, c)
 	return &autoscaling.CreateOrUpdateTagsOutput{}, nil
 }
+
+// TermFailAt makes the k-th TerminateInstanceInAutoScalingGroup call from now on fail.
+func (s *VerifAutoScaling) TermFailAt(k int) { s.termFailAt = s.termCalls + k }
 
 // ---- EC2
 
